@@ -26,6 +26,7 @@ func (c *Ctx) runPathsWith(fd *ast.FuncDecl, conf func(*SX)) ([]*Path, string) {
 		}
 	}
 	v := c.view(fd)
+	paths = panicTailNorm(paths)
 	if !x.KeepUnboxed {
 		if os.Getenv("ANYCHECK_SKIP") != "arm" {
 			paths = c.kindArmNorm(paths)
@@ -49,7 +50,7 @@ func (c *Ctx) runPathsWith(fd *ast.FuncDecl, conf func(*SX)) ([]*Path, string) {
 		}
 	}
 	paths = v.countdownNorm(v.windowNorm(v.flagNorm(paths)))
-	paths = v.collectNorm(v.siblingMerge(v.primitiveWriteNorm(v.sortNorm(paths))))
+	paths = v.collectNorm(v.siblingMerge(v.primitiveWriteNorm(v.sortNorm(v.sortGuardNorm(paths)))))
 	if c.quietHeap(fd, paths) {
 		paths = v.collapseEpochs(paths)
 		v.heapQuiet = true
